@@ -11,6 +11,8 @@ import (
 	"github.com/ozontech/seq-db/frac/lids"
 	"github.com/ozontech/seq-db/frac/token"
 	"github.com/ozontech/seq-db/node"
+	"github.com/ozontech/seq-db/frac/processor"
+	"github.com/ozontech/seq-db/parser"
 	"github.com/ozontech/seq-db/seq"
 	rt "github.com/ozontech/seq-db/verifrt"
 )
@@ -267,6 +269,13 @@ func VerifSealRoundTrip() {
 		}
 	}
 
+	if vConcrete && rt.Param("SEARCH") == 1 && rt.Choose(2) == 1 {
+		// instead of the window checks below: whole searches over the same sealed fraction
+		vSealedSearch(s, docs, nt)
+		rt.Reach("end")
+		return
+	}
+
 	// (b) posting lists per token, both orders, any LID window
 	ti := dp.getTokenIndex()
 	minLID, maxLID := rt.NondetU32(), rt.NondetU32()
@@ -355,4 +364,82 @@ func VerifSealRoundTrip() {
 		rt.Assert(pos[i+1] == d.pos, "document position (sealed = active)")
 	}
 	rt.Reach("end")
+}
+
+// vSealedSearch: whole searches through sealedDataProvider.Search over the sealed file, compared
+// with a direct evaluation over the ingested documents; then a search that fails inside the
+// fraction, after which data providers must still get unpack caches of their own.
+func vSealedSearch(s *Sealed, docs []*vDocT, nt int) {
+	type q struct {
+		text string
+		eval func(has func(int) bool) bool
+	}
+	qs := []q{
+		{"f:a", func(h func(int) bool) bool { return h(0) }},
+		{"not f:b", func(h func(int) bool) bool { return !h(1) }},
+		{"f:a and f:b", func(h func(int) bool) bool { return h(0) && h(1) }},
+	}
+	qi := rt.Choose(len(qs))
+	ast, err := parser.ParseSeqQL(qs[qi].text, nil)
+	if err != nil {
+		panic("query does not parse")
+	}
+	from, to := seq.MID(rt.NondetU64()), seq.MID(rt.NondetU64())
+	limit := rt.NondetInt()
+	rt.Assume(rt.And(0 <= limit, limit <= len(docs)+1))
+	order := seq.DocsOrder(rt.Choose(2))
+	dp := s.createDataProvider(context.Background())
+	qpr, serr := dp.Search(processor.SearchParams{AST: ast.Root, From: from, To: to, Limit: limit, WithTotal: true, Order: order})
+	dp.release()
+	rt.Assert(serr == nil, "sealed search succeeds")
+	if serr != nil {
+		return
+	}
+	// documents are ingested in descending ID order: result order = ingestion order (or its reverse)
+	var want []seq.ID
+	n := len(docs)
+	for k := 0; k < n; k++ {
+		d := docs[k]
+		if order.IsReverse() {
+			d = docs[n-1-k]
+		}
+		has := func(t int) bool {
+			for _, x := range d.toks {
+				if x == t {
+					return true
+				}
+			}
+			return false
+		}
+		if qs[qi].eval(has) && rt.And(from <= d.id.MID, d.id.MID <= to) {
+			want = append(want, d.id)
+		}
+	}
+	total := len(want)
+	if len(want) > limit {
+		want = want[:limit]
+	}
+	rt.Assert(qpr.Total == uint64(total), "sealed search: total = number of matching documents in range")
+	rt.Assert(len(qpr.IDs) == len(want), "sealed search: number of ids")
+	if len(qpr.IDs) == len(want) {
+		for i := range want {
+			rt.Assert(qpr.IDs[i].ID == want[i], "sealed search: ids in the requested order")
+		}
+	}
+	rt.Reach("sealed-search")
+
+	// a search that fails inside the fraction (more group values than allowed)
+	s.Config = &Config{Search: SearchConfig{AggLimits: AggLimits{MaxGroupTokens: 1}}}
+	dp2 := s.createDataProvider(context.Background())
+	star, _ := parser.ParseSeqQL("*", nil)
+	_, ferr := dp2.Search(processor.SearchParams{AST: star.Root, From: 0, To: ^seq.MID(0), Order: order,
+		AggQ: []processor.AggQuery{{Func: seq.AggFuncCount, GroupBy: &parser.Literal{Field: "f", Terms: []parser.Term{{Kind: parser.TermSymbol, Data: "*"}}}}}})
+	rt.Assert(ferr != nil, "a search over more group values than allowed fails")
+	dp2.release() // what the closure returned by Sealed.DataProvider does when the request ends
+	a, b := s.createDataProvider(context.Background()), s.createDataProvider(context.Background())
+	distinct := a.midCache != a.ridCache && b.midCache != b.ridCache && a.midCache != b.midCache && a.midCache != b.ridCache && a.ridCache != b.midCache && a.ridCache != b.ridCache
+	rt.Assert(distinct, "after a failed search every data provider still gets unpack caches of its own")
+	a.release()
+	b.release()
+	rt.Reach("failed-search")
 }
